@@ -62,6 +62,17 @@ CHECKS = {
         note='Trusted: TLC, the rendering of abstract headers; q=0, malformed headers and quoted commas are outside the property '
              '(excluded in the generators); codec round trip only on CSV (pandas 3.0 breaks the JSON decoders here) and auxiliary.',
         design='6/C19'),
+    'C15': dict(
+        technique='TLC exhaustive over query/entry schema arrangements (Entry.tla requirement, MatchEntryImpl.tla as-is scan and cast) '
+                  'and tabular view histories (Tabular.tla), every exported vector replayed on the real Reader / drivers / Dense / '
+                  'Frame / Slicer; random requests validated by TraceEntry.tla',
+        text='Entry.tla defines Aligned (columns by name in query order, values cast to the declared kind, refusal when a column is '
+             'missing); MatchEntryImpl.tla transcribes the zip_longest scan and _cast and is checked to refine it; every arrangement '
+             'within the constants is served by the real Reader.__call__, RowDriver and TableDriver and compared; Tabular.tla states '
+             'are replayed on Dense/Frame take_rows/take_columns/to_rows/to_columns and the Slicer.',
+        note='Trusted: TLC, the value projection (denotations, not container types). NaN/None, Boolean/Decimal/compound kinds and '
+             'codec-side entry inference are not covered.',
+        design='6/C15'),
 }
 
 NOT_YET = {}
